@@ -189,6 +189,7 @@ pub mod tick {
         static TOTAL: Cell<u64> = const { Cell::new(0) };
         static LIMIT: Cell<u64> = const { Cell::new(u64::MAX) };
         static KINDS: RefCell<Vec<(&'static str, u64)>> = const { RefCell::new(Vec::new()) };
+        static ITERS: RefCell<Vec<(&'static str, u64, u64, u64)>> = const { RefCell::new(Vec::new()) };
     }
 
     /// Reset the counter and install a ceiling (`u64::MAX` = none).
@@ -196,6 +197,31 @@ pub mod tick {
         TOTAL.with(|t| t.set(0));
         LIMIT.with(|l| l.set(limit));
         KINDS.with(|k| k.borrow_mut().clear());
+        ITERS.with(|k| k.borrow_mut().clear());
+    }
+
+    /// A bounded loop reports the ordinal of the iteration it is entering (1-based count for the
+    /// current loop instance) together with the budget the library itself holds for that loop.
+    /// Recorded per kind: the largest ordinal, the largest budget, and the largest excess of an
+    /// ordinal over the budget reported with it. Never influences behaviour.
+    pub fn iter(kind: &'static str, ordinal: usize, budget: usize) {
+        let (o, b) = (ordinal as u64, budget as u64);
+        ITERS.with(|k| {
+            let mut k = k.borrow_mut();
+            if let Some(e) = k.iter_mut().find(|(n, ..)| *n == kind) {
+                e.1 = e.1.max(o);
+                e.2 = e.2.max(b);
+                e.3 = e.3.max(o.saturating_sub(b));
+            } else {
+                k.push((kind, o, b, o.saturating_sub(b)));
+            }
+        });
+    }
+
+    /// `(kind, largest ordinal, largest budget, largest excess)` since the last reset.
+    #[must_use]
+    pub fn iters() -> Vec<(&'static str, u64, u64, u64)> {
+        ITERS.with(|k| k.borrow().clone())
     }
 
     /// Ticks since the last reset.
